@@ -33,7 +33,7 @@ _TOK = {"name": "ac"}
 
 
 def setup(tier):
-    tk.get(("ac", "hs"))
+    tk.get(("ac", "hs", "ref"))
 
 
 def _get(text):
@@ -65,6 +65,20 @@ def eval_variation(case):
     a = _one_full(f"See Foo v. Bar, {vol} {v} {page}, {int(page) + 5} (1999) (en banc).", v)
     b = _one_full(f"{vol} {e} {page}", e)
     if a is None or b is None:
+        # Whether the two spellings are read as written is judged with the unfiltered reference tokenizer, not with the
+        # tokenizer under test: a spelling that only the latter does not find yields no citation that could be equal
+        # to the canonical one.
+        used = _TOK["name"]
+        _TOK["name"] = "ref"
+        try:
+            ra = _one_full(f"See Foo v. Bar, {vol} {v} {page}, {int(page) + 5} (1999) (en banc).", v)
+            rb = _one_full(f"{vol} {e} {page}", e)
+        finally:
+            _TOK["name"] = used
+        if ra is not None and rb is not None:
+            res.nontrivial = True
+            res.v("spelling-not-extracted", f"{v!r} / {e!r}: the reference tokenizer reads both as written, tokenizer {used!r} reads {'neither' if a is None and b is None else 'only one'}")
+            return res
         res.label("excluded:not-read-as-written")
         return res
     res.nontrivial = True
